@@ -36,6 +36,8 @@ def evaluate(cases_coq, outdir, shards=16, header=None, fn="check_array"):
     with open(cases_coq) as f:
         for n, line in enumerate(f):
             cid, coq = line.rstrip("\n").split("\t", 1)
+            if coq.strip() == "0":
+                continue          # the harness marked this case as too large for model evaluation
             items.append((n, (cid, coq)))
     os.makedirs(outdir, exist_ok=True)
     # balance shards by size
